@@ -8,6 +8,11 @@ CLAIMED = {
    note="Trusted: Coq kernel; the hand-written transliteration (validated by the differential run, not proved against C); 'parses to an equal tree' is checked by execution with python's json as the independent parser, not proved; C locale.",
    technique="Coq proof (refinement of an index-level buffer model to a list function + token-level induction) + differential correspondence",
    design="DESIGN.md section 6, C13"),
+ 'C01': dict(
+   text="Coq theorems over the buffer-level transliteration of the whole parser (ParseDefs.v: skip_utf8_bom, buffer_skip_whitespace, parse_value/number/string (both passes, explicit output capacity)/array/object, all entry points): for EVERY memory content, declared length inside it, both termination modes, every allocation-failure schedule and every strtod that consumes a non-empty prefix of its argument, the outcome is Ok — no read at an index >= length and no write beyond the string block (outcome OOB) and no fuel exhaustion (termination) — with NULL leaving nothing allocated and a tree owning exactly the live blocks (C01_length_variants_safe); the zero-terminated entry points read up to the terminator only and coincide with the length variant on strlen+1 (C01_string_variants_safe); the nesting counter never exceeds CJSON_NESTING_LIMIT+1, bounding the C recursion (C01_depth_bounded); the reference strtod satisfies the contract (C01_strtod_ref_ok). Tied to /repo every run by executing the extracted model and the guard-page/read-only-mapping + ASan build of cJSON.c on valid texts, every prefix, single-byte edits, token soups, truncation shapes, 62-66 byte numbers and nesting 998-1002 / 10^5, through all six entry-point spellings; the returned trees are walked, printed and deleted on the implementation.",
+   note="Trusted: Coq kernel; the hand-written transliteration (validated by the differential run, not proved against C); libc strtod only through the stated contract; 'never writes to the input' and real stack use are observed on the implementation (read-only mapping, small-stack thread), not proved; that the returned tree can be printed/deleted is observed on the implementation and proved for the ledger count only.",
+   technique="Coq proof (fuel induction with a ledger/offset invariant per parser function) + differential correspondence under guard pages",
+   design="DESIGN.md section 6, C01"),
  'C12': dict(
    text="Coq theorems over the value-level transliteration of cJSON_Compare (CompareDefs.v) with IEEE binary64 doubles as Coq SpecFloat: the recursion bound always suffices (C12_total); for all pairs of trees with distinct keys per object (distinct after ASCII folding when case-insensitive) the result is true exactly when the declarative relation sem_eq holds (C12_spec); symmetric, reflexive (same pointer: any valid tree; equal copy: NaN-free), flags ignored, NULL/invalid give false (C12_symmetric, C12_reflexive, C12_flags_ignored, C12_null_invalid_false); compare_double is symmetric, reflexive off NaN and never equates finite with non-finite (C12_num), with the pinned defect re-derived (C12_num_refuted_pinned). Tied to /repo by running the extracted model and the ASan build of cJSON.c on the same generated pairs (single-point mutations, permutations, case variants, number grid) every run; purity (arguments unmodified) is observed on the implementation by dumping both trees before and after.",
    note="Trusted: Coq kernel; hand-written transliteration validated by the differential run; python's float arithmetic in the verdict oracle; C locale tolower.",
